@@ -58,7 +58,7 @@ struct Exec {
     std::vector<long> pending_free_checks; void check_pending_frees();
     bool nt_last_illegal = false; long fd_bytes[8];
     std::deque<UBox> boxes;
-    double tick_armed_at = 0; long ticks_seen = 0; bool tick_ever = false; long tick_grace = 1; double prev_dispatch_began = 0; int last_eagain_step = -1; int replacing_slot = -1; long tick_base = 0; std::string modname[prog::MAX_MODS]; void choose_module_names(); int gen_at_stop = 0; bool resub_owned_ok = true; /* re-subscription over subscriptions owning their user data / a duplicated topic used to be excluded: the defects behind that exclusion are repaired */ std::map<long, std::set<long>> sub_tokens; std::map<long, int> token_prio; bool retire_oneshot_by_token(Inst *x, long token); void tick_rearm(double armed_at);
+    double tick_armed_at = 0; long ticks_seen = 0; bool tick_ever = false; long tick_grace = 1; double prev_dispatch_began = 0; int last_eagain_step = -1; int replacing_slot = -1; long tick_base = 0; bool ctx_name_may_be_null = false; std::string modname[prog::MAX_MODS]; void choose_module_names(); int gen_at_stop = 0; bool resub_owned_ok = true; /* re-subscription over subscriptions owning their user data / a duplicated topic used to be excluded: the defects behind that exclusion are repaired */ std::map<long, std::set<long>> sub_tokens; std::map<long, int> token_prio; bool retire_oneshot_by_token(Inst *x, long token); void tick_rearm(double armed_at);
     bool nt_c01_accept = false, nt_c01_reject = false, nt_c02_shape = false, nt_c02_delivery = false;
     static void payload_free_hook(void *p);
     int model_send(Inst *S, Inst *direct, bool has_topic, const std::string &topic, long payload);
